@@ -24,7 +24,7 @@ use crate::{
         ed25519::Keypair,
         noise::{self, NoiseSocket},
     },
-    error::{Error, NegotiationError, SubstreamError},
+    error::{NegotiationError, SubstreamError},
     multistream_select::{dialer_select_proto, listener_select_proto, Negotiated, Version},
     protocol::{Direction, Permit, ProtocolCommand, ProtocolSet, SubstreamKeepAlive},
     substream,
@@ -533,7 +533,15 @@ impl TcpConnection {
                 // This permit will be passed on until the substream is reported to the
                 // [`TransportService`](crate::protocol::TransportService), where the connection
                 // will be upgraded and the permit won't be needed anymore.
-                let permit = self.protocol_set.try_get_permit().ok_or(Error::ConnectionClosed)?;
+                let Some(permit) = self.protocol_set.try_get_permit() else {
+                    // No protocol holds the connection open anymore: close it the regular way
+                    // so that the protocols and the manager are told.
+                    tracing::debug!(target: LOG_TARGET, peer = ?self.peer, "connection no longer kept open");
+                    self.protocol_set
+                        .report_connection_closed(self.peer, self.endpoint.connection_id())
+                        .await?;
+                    return Ok(true);
+                };
                 let open_timeout = self.substream_open_timeout;
 
                 self.pending_substreams.push(Box::pin(async move {
@@ -618,7 +626,10 @@ impl TcpConnection {
 
                 match (protocol, substream_id) {
                     (Some(protocol), Some(substream_id)) => {
-                        self.protocol_set
+                        // A protocol that has shut down cannot be told; that must not take the
+                        // connection down for the other protocols.
+                        let _ = self
+                            .protocol_set
                             .report_substream_open_failure(protocol.clone(), substream_id, error)
                             .await
                             .inspect_err(|error| {
@@ -629,7 +640,7 @@ impl TcpConnection {
                                     ?error,
                                     "failed to register substream open failure to protocol"
                                 );
-                            })?;
+                            });
                     }
                     _ => {}
                 }
@@ -650,7 +661,10 @@ impl TcpConnection {
                     self.protocol_set.protocol_codec(&protocol),
                 );
 
-                self.protocol_set
+                // A protocol that has shut down cannot receive the substream (it is dropped);
+                // that must not take the connection down for the other protocols.
+                let _ = self
+                    .protocol_set
                     .report_substream_open(
                         self.peer,
                         protocol.clone(),
@@ -668,7 +682,7 @@ impl TcpConnection {
                             ?error,
                             "failed to register opened substream to protocol",
                         );
-                    })?;
+                    });
             }
         }
 
